@@ -915,3 +915,19 @@ impl deno_graph::Executor for InlineExecutor {
     fut
   }
 }
+
+/// some specifier starts a chain of at least as many redirect hops as the loader admits per request
+/// (10): whether the chain's end is reached or a too-many-redirects error is recorded, and where,
+/// depends on the specifier at which a build enters the chain
+pub fn redirect_budget_exceedable(w: &World) -> bool {
+  (0..w.specs.len()).any(|i| {
+    let mut cur = i;
+    for _ in 0..10 {
+      match &w.resp[cur] {
+        Resp::Redirect(t) => cur = *t,
+        _ => return false,
+      }
+    }
+    true
+  })
+}
